@@ -48,6 +48,22 @@ def pair_exploration(ctx, res):
         base = pool.map("engines.crash:launch", [{"variant": fail_variant, "state": fresh, "k": 0, "sig": 9}])[0]
         titems = [{"variant": fail_variant, "state": fresh, "k": k} for k in range(1, len(base.get("events", [])) + 1)]
         touts = pool.map("engines.crash:launch_triple", titems)
+        # the scheduler side of the run lock (the tree's own connector lock class) held while a job process arrives, then given up;
+        # the job process free-running (k = 0: it is waiting inside acquire) or stopped at every traced line event while the lock is given up
+        hitems = [{"variant": fail_variant, "state": fresh, "k": k} for k in [0] + list(range(1, len(base.get("events", [])) + 1))[:: (4 if ctx.quick else 1)]]
+        houts = pool.map("engines.crash:launch_holder", hitems)
+    nhold, hheld = 0, 0
+    for it, o in zip(hitems, houts):
+        nhold += 1
+        log = o["log"]
+        hheld += "first-body-held" in o["phases"]
+        if any(log[i] == "start" and log[i + 1] == "start" for i in range(len(log) - 1)) or "second-body-started-while-first-held" in o["phases"]:
+            res.violation("taskrunner-holder:two-bodies-at-once", f"a process holds the run lock through the connector's lock class, job process A arrives (stopped at line event "
+                          f"{it['k']}), the holder leaves, A is held inside its body, B launched: body log {log} phases {o['phases']}", {"pair": True, "holder": True, "item": it, "result": o})
+        if o["hang"] or "holder-did-not-lock" in o["phases"] or o["exits"][0] != 0:
+            res.violation("taskrunner-holder:hang", f"A stopped at {it['k']}: phases {o['phases']} exits {o['exits']}", {"pair": True, "holder": True, "item": it, "result": o})
+    res.coverage["taskrunner_holder_launches"] = nhold
+    res.coverage["taskrunner_holder_first_body_held"] = hheld
     ntriple, held = 0, 0
     for it, o in zip(titems, touts):
         ntriple += 1
